@@ -644,11 +644,54 @@ impl World for C20 {
             }
             None => "case not found".into(),
         }));
+        // a binary (not human readable) peer and a user-defined color that asks the format which kind it is
+        let human_readable = observed(catch(|| {
+            use std::cell::Cell;
+            thread_local! { static SEEN: Cell<(Option<bool>, Option<bool>)> = const { Cell::new((None, None)) }; }
+            #[derive(Debug, PartialEq, Clone, Copy)]
+            struct Asks(f32);
+            #[derive(Serialize, Deserialize)]
+            struct AsksRepr {
+                v: f32,
+            }
+            impl Serialize for Asks {
+                fn serialize<S: serde::Serializer>(&self, s: S) -> Result<S::Ok, S::Error> {
+                    SEEN.with(|c| c.set((Some(s.is_human_readable()), c.get().1)));
+                    AsksRepr { v: self.0 }.serialize(s)
+                }
+            }
+            impl<'de> Deserialize<'de> for Asks {
+                fn deserialize<D: serde::Deserializer<'de>>(d: D) -> Result<Self, D::Error> {
+                    SEEN.with(|c| c.set((c.get().0, Some(d.is_human_readable()))));
+                    AsksRepr::deserialize(d).map(|r| Asks(r.v))
+                }
+            }
+            let peer = Peer::new(None);
+            peer.human_readable.set(false);
+            let value = palette::Alpha { color: Asks(0.5), alpha: 0.25f32 };
+            let tok = match value.serialize(tok::Rec { peer: &peer }) {
+                Ok(t) => t,
+                Err(e) => return format!("serialization failed: {}", e.0),
+            };
+            let pres = Presentation::plain();
+            let back = palette::Alpha::<Asks, f32>::deserialize(tok::Replay { tok: &tok, pres: &pres, peer: &peer, top: true });
+            let (ser, de) = SEEN.with(|c| c.get());
+            format!(
+                "format answers is_human_readable=false; the color inside Alpha was told {:?} while serializing and {:?} while deserializing; round trip {}",
+                ser,
+                de,
+                match back {
+                    Ok(b) => format!("ok (equal: {})", b == value),
+                    Err(e) => format!("Err({})", e.0),
+                }
+            )
+        }));
         serde_json::json!({
             "observed_not_judged": {
+                "is_human_readable_seen_by_a_color_inside_Alpha_under_a_binary_peer": human_readable,
                 "serde_flatten_of_Srgba_in_a_user_struct_through_serde_json": flatten,
                 "struct_presented_as_a_sequence_of_exactly_fields_len_elements_(bincode_style)": limited,
-                "note": "both go through deserialize_struct with the color's own static field list, to which AlphaDeserializer cannot add `alpha`; not a presentation the property's quantifier names, recorded so the limitation is visible",
+                "note": "flatten and the length-limited sequence both go through deserialize_struct with the color's own static field list, to which AlphaDeserializer cannot add `alpha`; not a presentation the property's quantifier names, recorded so the limitation is visible; AlphaSerializer forwards is_human_readable to the format, AlphaDeserializer does not (serde's default `true` answers), which no color or hue type of palette can notice because their components are numbers",
             }
         })
     }
